@@ -62,14 +62,9 @@ DoCall ==
          mret == IF run.hang THEN [t |-> "hang"] ELSE run.me.ret
          conf == IF modelled THEN mret.t = r.t /\ RetEq(mret, r) /\ run.sh = post
                  ELSE r.t = "ro" /\ sh = post
-         \* the pinned design's QUEUE (tickets) under the observed book: the ticket discipline of the model is
-         \* applied call after call and never re-anchored on the observed tickets (a defect in the code's queue
-         \* handling must not be excused as a stale-ticket finding), while the orders' contents are the observed
-         \* ones (a benign difference in contents must not make every later stale-ticket effect unexplainable)
-         pin  == [ob EXCEPT !.tickets = shp.tickets]
-         prun == RunCall(pin, c, Fuel)
-         pret == IF prun.hang THEN [t |-> "hang"] ELSE prun.me.ret
-         v    == CallVerdict(ob, c, r, post, sg, IF modelled THEN [ret |-> pret, sh |-> prun.sh, pre |-> pin] ELSE [ret |-> r, sh |-> pin, pre |-> pin])
+         \* C04: the model's prediction from the OBSERVED pre-state, and the surplus tickets of the observed queue
+         \* must be ones the known mechanism accounts for (LevelSeq!LegitTickets, kept in the ghost)
+         v    == CallVerdict(ob, c, r, post, sg, IF modelled THEN [ret |-> mret, sh |-> run.sh, pre |-> sh] ELSE [ret |-> r, sh |-> sh, pre |-> sh])
          lock == fk.on /\ Has(Line, "r2")
          post2 == IF lock THEN ObsOf(Line.st2) ELSE ob2
          run2 == RunCall(ob2, c, Fuel)
@@ -88,7 +83,7 @@ DoCall ==
         /\ ob' = post
         /\ sg' = v.sg
         /\ ob2' = post2 /\ fk' = fk
-        /\ shp' = IF modelled /\ ~prun.hang THEN prun.sh ELSE shp
+        /\ shp' = shp
         /\ sum' = AddFails([sum EXCEPT !.calls = @ + 1,
                                         !.lockstep = IF lock THEN @ + 1 ELSE @,
                                         !.lockdiff = IF lock /\ v11 # {} THEN @ + 1 ELSE @,
